@@ -7,7 +7,7 @@ import harvest as HV       # constants newly mentioned by the source under test 
 ROOT = os.path.dirname(os.path.dirname(os.path.abspath(__file__)))
 BUILD = os.path.join(ROOT, 'build')
 COQ = os.path.join(ROOT, 'coq')
-REPO = '/repo'
+REPO = os.environ.get('VERIF_REPO', '/repo')      # the registered commands leave VERIF_REPO unset; a private copy is used only for experiments run beside a long check
 MAX = 900719925474099
 U64 = 1 << 64
 
